@@ -25,7 +25,7 @@ template <class L> class LabeledFamily : public IAlgoFamily {
     std::string name() const override { return std::string("Labeled*Graph<") + Codec<L>::name + ">"; }
     bool handles(const std::string &k) const override {
         return k == "reverse" || k == "todirected" || k == "toundirected" || k == "edgelist" || k == "subgraphD" ||
-               k == "subgraphU" || k == "search" || k == "reject" || k == "iter";
+               k == "subgraphU" || k == "search" || k == "reject" || k == "iter" || k == "big_conv";
     }
 
     CaseResult run(const json &c, unsigned seed) override {
@@ -58,6 +58,8 @@ template <class L> class LabeledFamily : public IAlgoFamily {
         }
         if (k == "edgelist")
             edgeList(c, r);
+        if (k == "big_conv")
+            bigConv(c, r);
         if (k == "iter") {
             if (c.at("dir").get<bool>())
                 iterate<DG>(c, r);
@@ -122,6 +124,105 @@ template <class L> class LabeledFamily : public IAlgoFamily {
                 r.fail("constructor from std::multiset differs from the same sequence in a std::vector");
             if (!(DG(st) == DG(vst)) || !(UG(st) == UG(vst)) || encOf(UG(st)) != encOf(UG(vst)))
                 r.fail("constructor from std::set differs from the same sequence in a std::vector");
+        }
+    }
+
+    // C09 / C10 on large random graphs: records (input, real result) for DerivedTrace.tla
+    template <class G> G randomLabeled(std::mt19937 &rng, size_t n, size_t m) {
+        G g(n);
+        size_t tries = 0;
+        while (g.getEdgeNumber() < m && tries++ < 20 * m + 100) {
+            VertexIndex i = rng() % n, j = rng() % n;
+            if (rng() % 4 == 0)
+                i = n - 1 - rng() % std::min<size_t>(3, n);
+            g.addEdge(i, j, Codec<L>::enc((int)(rng() % 3)));
+        }
+        return g;
+    }
+    void bigConv(const json &c, CaseResult &r) {
+        std::mt19937 rng(c.value("seed", 1u));
+        const size_t n = c.at("n").get<size_t>(), m = c.at("m").get<size_t>();
+        const std::string fam = name();
+        try {
+            DG d = randomLabeled<DG>(rng, n, m);
+            UG u = randomLabeled<UG>(rng, n, m);
+            {
+                DG rev = d.getReversedGraph();
+                DG back = rev.getReversedGraph();
+                r.records.push_back({{"k", "conv_reverse"}, {"family", fam}, {"g", encOf(d)}, {"out", encOf(rev)},
+                                     {"twice_equal", (back == d) && !(back != d)}});
+            }
+            {
+                DG dd = u.getDirectedGraph();
+                UG back(dd);
+                r.records.push_back({{"k", "conv_todirected"}, {"family", fam}, {"g", encOf(u)}, {"out", encOf(dd)},
+                                     {"back_equal", (back == u) && !(back != u)}});
+            }
+            {
+                UG uu(d);
+                r.records.push_back({{"k", "conv_toundirected"}, {"family", fam}, {"g", encOf(d)}, {"out", encOf(uu)},
+                                     {"labeled", !nolabel}});
+            }
+            for (int dir = 0; dir < 2; ++dir) {
+                std::unordered_set<VertexIndex> S;
+                json Sj = json::array();
+                for (VertexIndex v = 0; v < n; ++v)
+                    if (rng() % 2) {
+                        S.insert(v);
+                        Sj.push_back(v);
+                    }
+                if (dir) {
+                    auto sub = algorithms::getSubgraph(d, S);
+                    r.records.push_back({{"k", "conv_subgraph"}, {"family", fam}, {"dir", true}, {"g", encOf(d)}, {"S", Sj},
+                                         {"out", encOf(sub)}});
+                    auto pr = algorithms::getSubgraphWithRemap(d, S);
+                    json mp = json::array();
+                    std::vector<std::pair<VertexIndex, VertexIndex>> mm(pr.second.begin(), pr.second.end());
+                    std::sort(mm.begin(), mm.end());
+                    for (auto &kv : mm)
+                        mp.push_back({kv.first, kv.second});
+                    r.records.push_back({{"k", "remap"}, {"dir", true}, {"g", encOf(d)}, {"S", Sj}, {"h", encOf(pr.first)},
+                                         {"map", mp}, {"family", fam}});
+                } else {
+                    auto sub = algorithms::getSubgraph(u, S);
+                    r.records.push_back({{"k", "conv_subgraph"}, {"family", fam}, {"dir", false}, {"g", encOf(u)}, {"S", Sj},
+                                         {"out", encOf(sub)}});
+                    auto pr = algorithms::getSubgraphWithRemap(u, S);
+                    json mp = json::array();
+                    std::vector<std::pair<VertexIndex, VertexIndex>> mm(pr.second.begin(), pr.second.end());
+                    std::sort(mm.begin(), mm.end());
+                    for (auto &kv : mm)
+                        mp.push_back({kv.first, kv.second});
+                    r.records.push_back({{"k", "remap"}, {"dir", false}, {"g", encOf(u)}, {"S", Sj}, {"h", encOf(pr.first)},
+                                         {"map", mp}, {"family", fam}});
+                }
+            }
+            {
+                // edge-list constructors from a long list with repeats and both orientations
+                using E = typename EdgeElem<L>::type;
+                std::vector<E> v;
+                json seq = json::array();
+                size_t len = c.value("list", 120);
+                for (size_t k = 0; k < len; ++k) {
+                    VertexIndex i = rng() % n, j = rng() % n;
+                    int a = (int)(rng() % 3);
+                    if (k % 7 == 3 && !v.empty()) { // repeat an earlier pair, possibly flipped
+                        auto &e0 = seq[rng() % seq.size()];
+                        i = e0[1].get<VertexIndex>();
+                        j = e0[0].get<VertexIndex>();
+                    }
+                    v.push_back(EdgeElem<L>::make(i, j, a));
+                    seq.push_back({i, j, nolabel ? 0 : a});
+                }
+                DG cd(v);
+                UG cu(std::list<E>(v.begin(), v.end()));
+                r.records.push_back({{"k", "conv_edgelist"}, {"kind", nolabel ? "nolabel" : "labeled"}, {"family", fam},
+                                     {"dir", true}, {"seq", seq}, {"out", encOf(cd)}});
+                r.records.push_back({{"k", "conv_edgelist"}, {"kind", nolabel ? "nolabel" : "labeled"}, {"family", fam},
+                                     {"dir", false}, {"seq", seq}, {"out", encOf(cu)}});
+            }
+        } catch (const std::exception &e) {
+            r.fail(std::string("a construction threw on a valid large graph: ") + e.what());
         }
     }
 
